@@ -7,7 +7,7 @@ from asyncfix.connection import AsyncFIXConnection, ConnectionState
 from asyncfix.journaler import Journaler
 from asyncfix.protocol import FIXProtocol44, FIXSchema
 from asyncfix.protocol.common import FExecType, FOrdStatus
-from asyncfix.protocol.order_single import FIXNewOrderSingle
+from asyncfix.protocol.order_single import FIXNewOrderSingle, fix_number
 
 
 class FIXTester:
@@ -154,7 +154,9 @@ class FIXTester:
             self.schema.validate(msg)
         self.acceptor_sent.append(msg)
 
-        self._socket_drain_in_coro = self.conn_init._process_message(msg, data)
+        if self.conn_init.connection_state > ConnectionState.DISCONNECTED_BROKEN_CONN:
+            self._socket_drain_in_coro = self.conn_init._process_message(msg, data)
+        # else: initiator has closed the connection, nothing is delivered any more
 
     async def _conn_socket_drain_acceptor(self):
         try:
@@ -286,8 +288,13 @@ class FIXTester:
         clord_id = cxl_req[FTag.ClOrdID]
         orig_clord_id = cxl_req[FTag.OrigClOrdID]
 
+        assert ord_status != FOrdStatus.CREATED, "CREATED is not a FIX OrdStatus"
         m = FIXMessage(FMsg.ORDERCANCELREJECT)
-        order = self.registered_orders.get(clord_id)
+        # request may be built by order.cancel_req() / replace_req() directly, then
+        #   the order is known only by the ClOrdID it had before
+        order = self.registered_orders.get(
+            clord_id, self.registered_orders.get(orig_clord_id)
+        )
         m[37] = self._get_order_id(order) if order is not None else "NONE"
         m[11] = clord_id
         m[41] = orig_clord_id
@@ -341,6 +348,7 @@ class FIXTester:
             EXECUTIONREPORT FIXMessage
         """
         assert order.clord_id in self.registered_orders, "Unregistered order!"
+        assert ord_status != FOrdStatus.CREATED, "CREATED is not a FIX OrdStatus"
 
         m = FIXMessage(FMsg.EXECUTIONREPORT)
         assert clord_id
@@ -370,7 +378,7 @@ class FIXTester:
         else:
             assert cum_qty <= order.qty
             assert cum_qty >= 0
-        m[FTag.CumQty] = cum_qty
+        m[FTag.CumQty] = fix_number(cum_qty)
 
         if isnan(leaves_qty):
             leaves_qty = order.leaves_qty
@@ -378,7 +386,7 @@ class FIXTester:
             assert leaves_qty >= 0
             assert leaves_qty <= order_qty
 
-        m[FTag.LeavesQty] = leaves_qty
+        m[FTag.LeavesQty] = fix_number(leaves_qty)
         assert (
             cum_qty + leaves_qty <= order_qty
         ), f"cum_qty[{cum_qty}] + leaves_qty[{leaves_qty}] <= order_qty[{order_qty}]"
@@ -390,7 +398,7 @@ class FIXTester:
                 exec_type == FExecType.TRADE
             ), "Only applicable to exec_type=F (trade)"
             assert last_qty > 0
-            m[FTag.LastQty] = last_qty
+            m[FTag.LastQty] = fix_number(last_qty)
             assert (
                 round(last_qty - (cum_qty - order.cum_qty), 3) == 0
             ), "Probably incorrect Trade qty"
@@ -409,7 +417,7 @@ class FIXTester:
         order.set_instrument(m)
 
         order.set_price_qty(m, price, order_qty)
-        m[FTag.AvgPx] = avg_price
+        m[FTag.AvgPx] = fix_number(avg_price)
 
         order.set_account(m)
 
